@@ -22,6 +22,7 @@ import (
 	"sync"
 	"time"
 
+	"verif/instrument"
 	"verif/sim"
 )
 
@@ -63,6 +64,24 @@ func main() {
 	case "list":
 		for _, c := range checks {
 			fmt.Println(c.Property, c.Harness)
+		}
+		return
+	case "instrument":
+		// debugging aid: check instrument <repo-relative file>...  (prints the instrumented source)
+		h := &Harness{}
+		for _, f := range fs.Args() {
+			h.Instrument = append(h.Instrument, InstrSpec{File: f, Opt: instrument.Options{Yield: true, MapOrder: true}})
+		}
+		wd := filepath.Join(verifDir, ".work", "instrument-debug")
+		os.MkdirAll(wd, 0o755)
+		o := &orch{}
+		ov, _, err := makeOverlay(h, wd, o.goEnv())
+		if err != nil {
+			fatal2("%v", err)
+		}
+		for _, f := range fs.Args() {
+			b, _ := os.ReadFile(ov[filepath.Join(repoDir, f)])
+			os.Stdout.Write(b)
 		}
 		return
 	case "manifest":
@@ -130,7 +149,7 @@ func (o *orch) build() error {
 	if err := os.MkdirAll(o.workDir, 0o755); err != nil {
 		return err
 	}
-	ov, treeHash, err := makeOverlay(h, o.workDir)
+	ov, treeHash, err := makeOverlay(h, o.workDir, o.goEnv())
 	if err != nil {
 		return err
 	}
@@ -197,19 +216,20 @@ func (o *orch) runWorker(spec *sim.Spec, idx string) (*sim.WorkerResult, error, 
 		return nil, err, true
 	}
 	h := harnesses[o.c.Harness]
-	args := []string{"-test.run", "^" + h.TestName + "$", "-test.count=1", "-test.cpu", "1", "-test.timeout", "12h"}
+	gmp := envOr("VERIF_GOMAXPROCS", strconv.Itoa(h.GoMaxProcs))
+	args := []string{"-test.run", "^" + h.TestName + "$", "-test.count=1", "-test.cpu", gmp, "-test.timeout", "12h"}
 	if o.dump {
 		args = append(args, "-test.v")
 	}
 	cmd := exec.Command(o.bin, args...)
 	cmd.Dir = o.workDir
-	cmd.Env = append(os.Environ(), "VERIF_SPEC="+specPath, "GOMAXPROCS="+envOr("VERIF_GOMAXPROCS", strconv.Itoa(h.GoMaxProcs)))
+	cmd.Env = append(os.Environ(), "VERIF_SPEC="+specPath)
 	if h.MemLimitMB > 0 {
 		// virtual-memory limit through the shell so that a hostile allocation cannot hurt the sandbox
 		sh := fmt.Sprintf("ulimit -v %d; exec %s %s", h.MemLimitMB*1024, o.bin, strings.Join(args, " "))
 		cmd = exec.Command("bash", "-c", sh)
 		cmd.Dir = o.workDir
-		cmd.Env = append(os.Environ(), "VERIF_SPEC="+specPath, "GOMAXPROCS="+envOr("VERIF_GOMAXPROCS", strconv.Itoa(h.GoMaxProcs)))
+		cmd.Env = append(os.Environ(), "VERIF_SPEC="+specPath)
 	}
 	out, err := cmd.CombinedOutput()
 	logPath := filepath.Join(o.workDir, "log-"+idx+".txt")
@@ -480,26 +500,26 @@ func (o *orch) writeEvidence(m *sim.WorkerResult, distinct, nViol, knownHit int,
 		explore = wall
 	}
 	cov := map[string]any{
-		"evaluations":         m.Runs,
-		"distinct_nontrivial": distinct,
-		"rule":                o.c.Rule,
-		"samples":             samples,
-		"nontrivial_runs":     m.Nontrivial,
-		"discarded_runs":      m.Discarded,
-		"distinct_capped":     m.HashesCap,
-		"runs_per_hour":       int64(float64(m.Runs) / explore * 3600),
-		"sim_seconds":         float64(m.SimNanos) / 1e9,
-		"faults_fired":        faults,
-		"probes":              probes,
-		"counters":            other,
+		"evaluations":          m.Runs,
+		"distinct_nontrivial":  distinct,
+		"rule":                 o.c.Rule,
+		"samples":              samples,
+		"nontrivial_runs":      m.Nontrivial,
+		"discarded_runs":       m.Discarded,
+		"distinct_capped":      m.HashesCap,
+		"runs_per_hour":        int64(float64(m.Runs) / explore * 3600),
+		"sim_seconds":          float64(m.SimNanos) / 1e9,
+		"faults_fired":         faults,
+		"probes":               probes,
+		"counters":             other,
 		"probes_stuck_at_zero": zeroProbes,
-		"components":          map[string]any{"real": o.c.Real, "stub": o.c.Stub},
-		"shrink":              map[string]int{"attempts": m.ShrinkTried, "accepted": m.ShrinkOK},
-		"workers":             nw,
-		"known_findings_hit":  knownHit,
-		"repo_rev":            repoRev(),
-		"repo_tree_hash":      o.treeHash,
-		"build_s":             o.buildS,
+		"components":           map[string]any{"real": o.c.Real, "stub": o.c.Stub},
+		"shrink":               map[string]int{"attempts": m.ShrinkTried, "accepted": m.ShrinkOK},
+		"workers":              nw,
+		"known_findings_hit":   knownHit,
+		"repo_rev":             repoRev(),
+		"repo_tree_hash":       o.treeHash,
+		"build_s":              o.buildS,
 	}
 	ev := map[string]any{
 		"property_id": o.c.Property,
